@@ -3,6 +3,7 @@ package govc
 import (
 	"fmt"
 	"go/constant"
+	"go/token"
 	"go/types"
 	"os"
 	"path/filepath"
@@ -731,4 +732,90 @@ func (w *World) globalInitString(v ssa.Value) (string, bool) {
 		}
 	}
 	return "", false
+}
+
+type mapWrite struct{ fn, full, pos string }
+
+// mapFieldWriters lists the map stores and deletes, anywhere in the declaring package (function literals included),
+// whose map operand is read from field mw.Field of a mw.Type. found is false when no such map field exists.
+func (w *World) mapFieldWriters(mw MapWriters) (out []mapWrite, found bool) {
+	sp := w.SSAPkgs[mw.Pkg]
+	if sp == nil {
+		return nil, false
+	}
+	if tn, ok := sp.Pkg.Scope().Lookup(mw.Type).(*types.TypeName); ok {
+		if st, ok := tn.Type().Underlying().(*types.Struct); ok {
+			for i := 0; i < st.NumFields(); i++ {
+				if st.Field(i).Name() == mw.Field {
+					_, found = st.Field(i).Type().Underlying().(*types.Map)
+				}
+			}
+		}
+	}
+	if !found {
+		return nil, false
+	}
+	isField := func(v ssa.Value) bool {
+		u, ok := v.(*ssa.UnOp)
+		if !ok || u.Op != token.MUL {
+			return false
+		}
+		fa, ok := u.X.(*ssa.FieldAddr)
+		if !ok {
+			return false
+		}
+		pt, ok := fa.X.Type().Underlying().(*types.Pointer)
+		if !ok {
+			return false
+		}
+		nt, ok := pt.Elem().(*types.Named)
+		if !ok || nt.Obj().Name() != mw.Type || nt.Obj().Pkg() == nil || nt.Obj().Pkg().Path() != mw.Pkg {
+			return false
+		}
+		st, ok := nt.Underlying().(*types.Struct)
+		return ok && fa.Field < st.NumFields() && st.Field(fa.Field).Name() == mw.Field
+	}
+	var visit func(f *ssa.Function)
+	seen := map[*ssa.Function]bool{}
+	visit = func(f *ssa.Function) {
+		if f == nil || seen[f] {
+			return
+		}
+		seen[f] = true
+		for _, b := range f.Blocks {
+			for _, in := range b.Instrs {
+				var m ssa.Value
+				switch x := in.(type) {
+				case *ssa.MapUpdate:
+					m = x.Map
+				case *ssa.Call:
+					if bi, ok := x.Call.Value.(*ssa.Builtin); ok && (bi.Name() == "delete" || bi.Name() == "clear") && len(x.Call.Args) > 0 {
+						m = x.Call.Args[0]
+					}
+				}
+				if m != nil && isField(m) {
+					p := w.Prog.Fset.Position(in.Pos())
+					out = append(out, mapWrite{funcKeyName(f), f.String(), fmt.Sprintf("%d:%d", p.Line, p.Column)})
+				}
+			}
+		}
+		for _, a := range f.AnonFuncs {
+			visit(a)
+		}
+	}
+	for _, m := range sp.Members {
+		switch x := m.(type) {
+		case *ssa.Function:
+			visit(x)
+		case *ssa.Type:
+			for _, t := range []types.Type{x.Type(), types.NewPointer(x.Type())} {
+				ms := w.Prog.MethodSets.MethodSet(t)
+				for i := 0; i < ms.Len(); i++ {
+					visit(w.Prog.MethodValue(ms.At(i)))
+				}
+			}
+		}
+	}
+	sort.Slice(out, func(i, j int) bool { return out[i].full+out[i].pos < out[j].full+out[j].pos })
+	return out, true
 }
